@@ -13,7 +13,7 @@ FIELD_DEFS = {
     213: ('XmlData', 'DATA'), 1128: ('ApplVerID', 'STRING'), 98: ('EncryptMethod', 'INT'), 108: ('HeartBtInt', 'INT'),
     1137: ('DefaultApplVerID', 'STRING'), 112: ('TestReqID', 'STRING'), 141: ('ResetSeqNumFlag', 'BOOLEAN'), 60: ('TransactTime', 'UTCTIMESTAMP'),
     40: ('OrdType', 'CHAR'), 18: ('ExecInst', 'MULTIPLEVALUESTRING'), 43: ('PossDupFlag', 'BOOLEAN'), 122: ('OrigSendingTime', 'UTCTIMESTAMP'),
-    9999: ('UserDefined', 'STRING'), 115: ('OnBehalfOfCompID', 'STRING'), 369: ('LastMsgSeqNumProcessed', 'SEQNUM'), 50: ('SenderSubID', 'STRING'), 57: ('TargetSubID', 'STRING'), 123: ('GapFillFlag', 'BOOLEAN'),
+    1: ('Account', 'STRING'), 9999: ('UserDefined', 'STRING'), 115: ('OnBehalfOfCompID', 'STRING'), 369: ('LastMsgSeqNumProcessed', 'SEQNUM'), 50: ('SenderSubID', 'STRING'), 57: ('TargetSubID', 'STRING'), 123: ('GapFillFlag', 'BOOLEAN'),
 }
 
 
